@@ -531,9 +531,11 @@ pub fn lex_calls(text: &str, zsh: bool, raws: &[String]) -> Result<Vec<Call>, St
 }
 
 fn work_dir() -> PathBuf {
-    let d = PathBuf::from(crate::engine::VERIF)
-        .join("work")
-        .join(format!("c15-{}", std::process::id()));
+    // inside the run directory of the parent (removed when the check ends)
+    let base = std::env::var_os("BPAF_VERIF_RUNDIR")
+        .map(PathBuf::from)
+        .unwrap_or_else(|| PathBuf::from(crate::engine::VERIF).join("work"));
+    let d = base.join(format!("c15-{}", std::process::id()));
     let _ = fs::create_dir_all(&d);
     d
 }
